@@ -7,7 +7,7 @@ from reactivex import operators as ops
 
 from vlib.core import FAIL, OK, Check
 from vlib.lab import conform
-from vlib.timeops import mk_trigger, sched_modes, sched_setup, CLOCKS, combine, cv, effective, execute_all, first_fire, fwd, judge, mk_lab, nelems, outcomes, prelude, second_sub, sources, sub_ticks, targ, triggers
+from vlib.timeops import mk_trigger, sched_modes, sched_setup, CLOCKS, combine, cv, effective, execute_all, first_fire, fwd, judge, mk_lab, nelems, outcomes, prelude, second_sub, sources, sub_ticks, targ, triggers, with_feedback
 
 PROPERTY_ID = "C17"
 LEVEL = "exploration"
@@ -27,7 +27,7 @@ RULE = (
     "while each arrives before last-activity+d (absolute: before D); otherwise the fallback is subscribed exactly then (or the "
     "sequence fails then), never after the source terminated; timeout_with_mapper likewise with the first firing (N or C) of "
     "the first-timeout / per-element timeout observable. Non-trivial: some element within one tick of a boundary (for timeout: "
-    "within one tick of a running deadline). In 1 case of 3 the same built observable is subscribed a second time at a generated tick s1 in s0+{0,1,2,3,7}; the same oracle is applied to that probe with its own subscribe tick, and the fallback must be subscribed once per timed-out subscription. Scheduler passing: the take/skip operators and timeout are run in the modes sub (no argument, subscription carries the lab scheduler), arg (scheduler argument, subscription carries none) and arg-other (argument, subscription carries a different never-started virtual scheduler reading +1000 ticks) and must behave identically; one in four timeout observables and fallbacks is a scheduler-less library factory (timer(d), empty(), return_value, never) that must run on the scheduler in force. Any request for the real-time TimeoutScheduler during a run is refused and reported (realtime-fallback), any action left on the decoy scheduler is reported (wrong-scheduler). skip_last_with_time additionally: every produced element appears at the documented instant - the first source element/completion instant at which it is older than d (age exactly d: that instant or the next) - and an element older than d when a later element arrives must have been produced even if the source then fails or never ends. Thorough tier goes deeper for last/timeout: up to 10 elements per timeline, half of them dense (gaps 0-2), durations up to 8 ticks. One timeout_with_mapper case in four uses the overload WITHOUT a per-element mapper (first timeout only): once an element arrived before the first timeout fired no due time exists any more and the source is mirrored. Distinct = distinct case JSON."
+    "within one tick of a running deadline). In 1 case of 3 the same built observable is subscribed a second time at a generated tick s1 in s0+{0,1,2,3,7}; the same oracle is applied to that probe with its own subscribe tick, and the fallback must be subscribed once per timed-out subscription. Scheduler passing: the take/skip operators and timeout are run in the modes sub (no argument, subscription carries the lab scheduler), arg (scheduler argument, subscription carries none) and arg-other (argument, subscription carries a different never-started virtual scheduler reading +1000 ticks) and must behave identically; one in four timeout observables and fallbacks is a scheduler-less library factory (timer(d), empty(), return_value, never) that must run on the scheduler in force. Any request for the real-time TimeoutScheduler during a run is refused and reported (realtime-fallback), any action left on the decoy scheduler is reported (wrong-scheduler). skip_last_with_time additionally: every produced element appears at the documented instant - the first source element/completion instant at which it is older than d (age exactly d: that instant or the next) - and an element older than d when a later element arrives must have been produced even if the source then fails or never ends. Thorough tier goes deeper for last/timeout: up to 10 elements per timeline, half of them dense (gaps 0-2), durations up to 8 ticks. One timeout_with_mapper case in four uses the overload WITHOUT a per-element mapper (first timeout only): once an element arrived before the first timeout fired no due time exists any more and the source is mirrored. Check skip_last_feedback: skip_last_with_time over a hot source into which the consumer pushes a new element from inside its on_next for the k-th produced element (it arrives at that instant, age 0, behind everything received before; ignored after completion): every element still produced exactly once, in arrival order, at the documented instants (age exactly d: one rule per run). Distinct = distinct case JSON."
 )
 ASSUMPTIONS = [
     "at an exact tie between an operator timer and a source notification either order is accepted (one order per timer and instant)",
@@ -263,6 +263,67 @@ def _last_verdict(case, op, tl, lab, p, s0, tl2, lab2, p2, t_new):
     if "age=d" in cls:
         cls.append("twin-with-age=d-element")
     return OK(near, cls)
+
+
+# ------------------------------------------------------------------------------ skip_last_with_time with re-entrant feedback
+def _exp_skip_last_fb(eff, d, fb, ch):
+    """Reference run: elements wait in arrival order; at every arrival / at completion the leading elements that are older
+    than d (age exactly d: one rule per run) are produced, each exactly once.  After the consumer received the k-th produced
+    element (k in fb) it pushes element 1000+k into the source: it arrives at that same instant (age 0) behind everything
+    that arrived before it, and is ignored once the source has completed."""
+    strict = []
+    q, out = [], []
+    st_ = {"n": 0, "done": False}
+
+    def old(age):
+        if age != d:
+            return age > d
+        if not strict:
+            strict.append(ch())
+        return not strict[0]
+
+    def drain(T):
+        while q and old(T - q[0][0]):
+            t, v = q.pop(0)
+            out.append([T, "N", v])
+            k = st_["n"]
+            st_["n"] += 1
+            if k in fb and not st_["done"]:
+                q.append((T, ["int", 1000 + k]))
+                drain(T)
+
+    for T, kd, v in eff:
+        if kd == "N":
+            q.append((T, cv(v)))
+            drain(T)
+        elif kd == "C":
+            st_["done"] = True
+            drain(T)
+            out.append([T, "C", None])
+            return out
+        else:
+            out.append([T, "E", ["exc", v]])
+            return out
+    return out
+
+
+def _run_skip_last_fb(case):
+    lab = mk_lab(case["clock"])
+    s0, d = case["s0"], case["d"]
+    src = lab.source(case["src"])
+    fb = set(case["fb"])
+    o = src.pipe(ops.skip_last_with_time(targ(lab, case["form"], d)))
+    probes = execute_all(lab, with_feedback(o, src, fb), [s0])
+    eff = effective(case["src"], s0)
+    outs = outcomes(lambda ch: _exp_skip_last_fb(eff, d, fb, ch))
+    tr = probes[0].trace()
+    cls = [f"clock:{case['clock']}", f"form:{case['form']}", "feedback-during-delivery"]
+    if any(e[1] == "N" and e[2][1] >= 1000 for e in tr):
+        cls.append("feedback-element-produced")
+    if any(sum(1 for e in o_ if e[1] == "N") > sum(1 for m in eff if m[1] == "N") - 0 for _, o_ in outs):
+        cls.append("feedback-element-expected")
+    got_n = sum(1 for e in tr if e[1] == "N")
+    return judge("skip_last_with_time", case, lab, probes[0], outs, cls, got_n >= 2)
 
 
 # ------------------------------------------------------------------------------ timeout
@@ -538,6 +599,14 @@ def _twm_cases(draw):
     return c
 
 
+@st.composite
+def _skip_last_fb_cases(draw):
+    d = draw(st.sampled_from([0, 1, 2, 2, 3]))
+    s0, spec = draw(sources(d=d, max_len=5, min_len=2, kinds=("hot",), terminals=("C", "C", "C", "E", None)))
+    fb = sorted(set(draw(st.lists(st.integers(0, 3), min_size=1, max_size=2))))
+    return {"clock": draw(st.sampled_from(CLOCKS)), "s0": s0, "src": spec, "d": d, "form": draw(st.sampled_from(FORMS)), "fb": fb}
+
+
 def checks(tier):
     T = 16
     sh = {"quick": 4, "thorough": 16}
@@ -546,6 +615,7 @@ def checks(tier):
     return [
         Check("window", _run_window, strategy=_window_cases(), examples={"quick": 2400, "thorough": T * 12000}, shards=sh),
         Check("last", _run_last, strategy=_last_cases(*deep), examples={"quick": 2400, "thorough": T * 12000}, shards=sh),
+        Check("skip_last_feedback", _run_skip_last_fb, strategy=_skip_last_fb_cases(), examples={"quick": 600, "thorough": T * 3000}, shards=sh),
         Check("timeout", _run_timeout, strategy=_timeout_cases(*deep), examples={"quick": 2400, "thorough": T * 12000}, shards=sh),
         Check("timeout_with_mapper", _run_twm, strategy=_twm_cases(), examples={"quick": 1600, "thorough": T * 12000}, shards=sh),
     ]
